@@ -179,6 +179,14 @@ class Driver:
         ctx = proc.ctx
         w = self.world
         lines = []
+        if proc.killed:
+            # the command process was killed (pool terminate): it did
+            # nothing observable
+            proc.out = ''
+            proc.ret = -9
+            proc.done = True
+            self.bus.emit('CMD_KILLED', kind=proc.kind, pid=proc.pid)
+            return
         if proc.kind == 'jobs-submit':
             for jid in ctx.cmd_kwargs.get('job_log_dirs') or []:
                 point, name, num = jid.split('/')
@@ -348,6 +356,10 @@ class Driver:
                             'now-now': StopMode.REQUEST_NOW_NOW,
                             'kill': StopMode.REQUEST_KILL,
                             None: None}[args.get('mode')]
+        if name == 'broadcast':
+            import types
+            args['mode'] = types.SimpleNamespace(value=args['mode'])
+            args['settings'] = [dict(x) for x in args.get('settings') or []]
         ev = self.bus.emit('CMD', cmd=name, args=act.get('args', {}),
                            pool=snap_pool(schd.pool))
         for m in self.monitors:
